@@ -1,19 +1,19 @@
 TECH = "bounded model checking of the real code with Kani/CBMC (SAT): symbolic inputs, property as assertion, counterexample replayed natively"
 META = {
  "C01": dict(
-    text="Totality decided by the solver per payload type: each of the 19 ADS-B / Comm-B payload readers (plus the two Comm-B-gated hypotheses) is run on ALL 2^56 payload contents through the entry point its caller uses; every Rust-level abort (panic, arithmetic overflow with the release profile's overflow checks, out-of-bounds index, failed unwrap) and every loop bound is a CBMC assertion. Frames shorter than their downlink format prescribes are rejected for every first byte. Thorough tier: whole frames through Message::try_from for DF 0/4/5/11/16/17 (11 type-code bytes)/18/19/24 with the discriminating bytes concrete, Display of every accepted ADS-B payload, too-long frames, determinism (DF11).",
+    text="Totality decided by the solver per payload type: each of the 19 ADS-B / Comm-B payload readers (plus the two Comm-B-gated hypotheses) is run on ALL 2^56 payload contents through the entry point its caller uses; every Rust-level abort (panic, arithmetic overflow with the release profile's overflow checks, out-of-bounds index, failed unwrap) and every loop bound is a CBMC assertion. Frames cut to every length below the one their downlink format prescribes are rejected (14 concrete first bytes covering DF 0,1,4,5,11,14,16-21,24,31, content symbolic). Thorough tier: the real DF20/DF21 selector readers on every MB field with the register hypotheses stubbed (glue: is_empty, gates, exactly the accepted hypotheses stored), whole frames through Message::try_from for DF 0/4/5/11/16/17 (11 type-code bytes)/18/19/24 with the discriminating bytes concrete, Display of every accepted ADS-B payload, too-long frames, determinism (DF11), BDS 2,1.",
     design_ref="DESIGN.md 3/C01, 7.2",
-    note="Trusted: Kani/CBMC; the bitvec-free deku reader model (validated natively against real deku on every run); tracing/regex/once_cell cfg(kani) forks; fmt/libm stubs. Whole-frame DF20/DF21 (did not finish in 2 h) and Debug rendering are outside; the quick tier decides the payload readers and the length discipline only.",
+    note="Trusted: Kani/CBMC; the bitvec-free deku reader model (validated natively against real deku on every run); tracing/regex/once_cell cfg(kani) forks; fmt/libm stubs; selstubs.rs for the selector harnesses. Whole-frame DF20/DF21 through Message::try_from (did not finish in 2 h) and Debug rendering are outside; the quick tier decides the payload readers and the length discipline only.",
     technique=TECH),
  "C02": dict(
-    text="Solver verdicts over all frames: CRC_TABLE equals the bit-serial remainder for all 256 indices; one table step equals 8 bit-serial steps for every remainder and byte (inductive step for any length); modes_checksum equals the remainder modulo 0x1FFF409 for ALL 2^112 and 2^56 frames; linearity; every 1-bit, 2-bit and <=24-bit burst error pattern has a non-zero syndrome; payload||crc^address always yields the address; the AP field reader reports the crc context. Thorough: the DF17 acceptance gate (accepted iff remainder zero) and address recovery through Message::try_from for DF 0/4/5/16, end-to-end corruption of valid DF17 frames.",
+    text="Solver verdicts over all frames: CRC_TABLE equals the bit-serial remainder for all 256 indices; one table step equals 8 bit-serial steps for every remainder and byte (inductive step for any length); modes_checksum equals the remainder modulo 0x1FFF409 for ALL 2^112 and 2^56 frames; linearity; every 1-bit, 2-bit and <=24-bit burst error pattern has a non-zero syndrome; payload||crc^address always yields the address; the AP field reader reports the crc context; the DF17 CRC gate of Message::from_reader_with_ctx lets EVERY 112-bit DF17 frame (three capability values, type code 0) pass iff its remainder is zero (paths ended just past the gate). Thorough: the same gate with the complete decode behind it, address recovery through Message::try_from for DF 0/4/5/16, end-to-end corruption of valid DF17 frames.",
     design_ref="DESIGN.md 3/C02, 7.2",
-    note="Trusted: Kani/CBMC; deku model; oracle = bit-serial GF(2) division written from Annex 10. The DF17 gate and whole-frame address recovery are thorough-tier (50 min each); whole-frame DF20/DF21 is outside (composition argument stated in DESIGN 7.2).",
+    note="Trusted: Kani/CBMC; deku model (incl. its Kani-only cut-point hook: paths end at the second reader construction, i.e. between the gate and the payload parse); oracle = bit-serial GF(2) division written from Annex 10. Whole-frame address recovery is thorough-tier (50 min each); whole-frame DF20/DF21 is outside (composition argument stated in DESIGN 7.2).",
     technique=TECH + "; differential against a bit-serial reference"),
  "C03": dict(
-    text="For every payload type the decoder's fields are compared with the value the standard assigns to the code found at the standard's bit positions, over ALL 2^56 payloads (every code of every field simultaneously): BDS 0,9 velocity components / track / ground speed (atan2 and hypot replaced by ghost-state contract stubs so that argument order, sign, scale and wrap are inside the check), airspeed, heading, vertical rate, GNSS-baro; BDS 0,6 movement table and track; BDS 0,5 counts; BDS 6,2 / 4,0 selected altitude, QNH, heading; BDS 5,0 / 6,0; the 24-bit address. Thorough: all 64^8 call signs (BDS 0,8 / 2,0).",
+    text="For every payload type the decoder's fields are compared with the value the standard assigns to the code found at the standard's bit positions, over ALL 2^56 payloads (every code of every field simultaneously): BDS 0,9 velocity components / track / ground speed (atan2 and hypot replaced by ghost-state contract stubs so that argument order, sign, scale and wrap are inside the check), airspeed, heading, vertical rate, GNSS-baro; BDS 0,6 movement table and track; BDS 0,5 counts; BDS 6,2 / 4,0 selected altitude, QNH, heading; BDS 5,0 / 6,0; the 24-bit address. Thorough: all 64^8 call signs (BDS 0,8 / 2,0); the DF20 sentence (a payload is labelled BDS 0,5 iff accepted with an altitude equal to the header altitude) on the real DF20 selector reader for every MB field and header altitude.",
     design_ref="DESIGN.md 3/C03",
-    note="Trusted: Kani/CBMC; deku model; field positions and scale factors written from DO-260B / Annex 10 in harness/src/c03.rs. Comm-B registers are compared only when their plausibility filters accept the payload. Altitude/squawk values are C13; the DF20 'BDS05 only if alt == AC' gate is outside (whole-frame DF20 infeasible).",
+    note="Trusted: Kani/CBMC; deku model; field positions and scale factors written from DO-260B / Annex 10 in harness/src/c03.rs; selstubs.rs (other register hypotheses) for df20_gate. Comm-B registers are compared only when their plausibility filters accept the payload. Altitude/squawk values are C13.",
     technique=TECH + "; oracle from the standard, ghost-state stubs for libm"),
  "C04": dict(
     text="Integer cell model of the CPR encoder as oracle (no floating-point encoder in the loop): for every pair of extended latitude counts whose cells share a latitude in [-90, 90] the decoder returns the centre of the later report's cell (1e-9 deg) or nothing, and nothing only when the two cells are in different NL bands of the closed formula; same for longitude at one latitude per NL band where tractable; any pair of reports gives latitude in [-90, 90] and longitude in [-180, 180); same-parity pairs give nothing; the decoder's NL table equals the closed formula at every even cell latitude.",
@@ -26,17 +26,17 @@ META = {
     note="Trusted: as C04. The 180 NM / 45 NM disc is replaced by the +-0.95 half-zone box it is contained in (geometric fact about the NL table, assumed).",
     technique=TECH + "; integer cell oracle, IEEE-754 bit-precise"),
  "C07": dict(
-    text="Every accepted payload of every type (all 2^56 contents: every subtype / version / reserved shape) is serialised by the REAL serde machinery (derive output, FlatMapSerializer, TaggedSerializer) into a structure-recording serializer: Ok, no duplicate key per JSON object, no non-finite number, no control character. Records constructed with symbolic header fields show df = downlink format and icao24 fed from the address the frame carries (value capture), and ICAO/IcaoParity serialise as six lowercase hex digits for all 2^24 addresses through the REAL formatter; a timed record keeps the frame as lowercase hex.",
+    text="Every accepted payload of every type (all 2^56 contents: every subtype / version / reserved shape) is serialised by the REAL serde machinery (derive output, FlatMapSerializer, TaggedSerializer) into a structure-recording serializer: Ok, no duplicate key per JSON object, no non-finite number, no control character. Records constructed with symbolic header fields show df = downlink format and icao24 fed from the address the frame carries (value capture), and ICAO/IcaoParity serialise as six lowercase hex digits for all 2^24 addresses through the REAL formatter; a timed record keeps the frame as lowercase hex (hex::encode by contract; the real hex::encode on all one-byte inputs). Thorough: string-valued registers, records around every accepted payload, DF20/DF21 selectors with EVERY combination of accepted registers.",
     design_ref="DESIGN.md 3/C07, 7.2",
-    note="Trusted: Kani/CBMC; deku model; the recording serializer (validated natively against serde_json on every run); libm stubs. serde_json's digit generation/escaping is outside. Top-level records are constructed from public fields (superset of decodable records).",
+    note="Trusted: Kani/CBMC; deku model; the recording serializer (validated natively against serde_json on every run); libm stubs; hex::encode contract in timed_frame_*; selstubs.rs in ser_selector_*. serde_json's digit generation/escaping is outside. Top-level records are constructed from public fields (superset of decodable records).",
     technique=TECH + "; real serde derive code run into a recording Serializer"),
  "C08": dict(
-    text="Range assertions on every accepted payload over ALL 2^56 contents per type: angles in [0, 360) (BDS 0,6 / 0,9 / 4,4 / 5,0 / 6,0 / 6,2), roll, CPR counts < 2^17, vertical rates on their 64 / 32 ft/min grids within span, speeds finite and non-negative, Mach in (0, 1], squawk octal, humidity, temperatures, call-sign alphabet; every float field finite.",
+    text="Range assertions on every accepted payload over ALL 2^56 contents per type: angles in [0, 360) (BDS 0,6 / 0,9 / 4,4 / 5,0 / 6,0 / 6,2), roll, CPR counts < 2^17, vertical rates on their 64 / 32 ft/min grids within span, speeds finite and non-negative, Mach in (0, 1], squawk octal, humidity, temperatures; every float field finite.",
     design_ref="DESIGN.md 3/C08",
-    note="Trusted: Kani/CBMC; deku model; libm::atan2 by contract (range, sign, quadrant, octant, zero iff y = 0 and x >= 0, magnitude floor 2^-12) so that the wrap of BDS 0,9 track is decided for every angle libm can return; hypot by contract.",
+    note="Trusted: Kani/CBMC; deku model; libm::atan2 by contract (range, sign, quadrant, octant, zero iff y = 0 and x >= 0, magnitude floor 2^-12) so that the wrap of BDS 0,9 track is decided for every angle libm can return; hypot by contract. The call-sign alphabet clause is NOT decided here (reading back a String built from symbolic characters exhausts 15-30 GB even for one symbolic character); characters are compared with the Annex 10 table under C03 (thorough).",
     technique=TECH),
  "C11": dict(
-    text="For each address-carrying downlink format a record with symbolic address fields is filtered by the real Filters::is_in (filters.rs included unchanged) under every configuration class (filter absent / empty / one / two entries; labels over all formats; arbitrary 24-bit addresses): kept iff both filters accept the displayed df and the displayed address. Undecoded records are never kept.",
+    text="For each address-carrying downlink format a record with symbolic address fields is filtered by the real Filters::is_in (filters.rs included unchanged) under every configuration class (filter absent / empty / one / two entries; labels over all formats; arbitrary 24-bit addresses): kept iff both filters accept the displayed df and the displayed address; a second family sweeps the one-label df filter concretely over the twelve labels. Undecoded records are never kept.",
     design_ref="DESIGN.md 3/C11, 7.2",
     note="Trusted: Kani/CBMC. Records are constructed from public fields with the decode invariant ap == crc (decided under C02); that the JSON shows the same fields is C07. Filter lists longer than 2 outside.",
     technique=TECH),
@@ -46,14 +46,14 @@ META = {
     note="Trusted: Kani/CBMC/CaDiCaL; the bitvec-free deku reader model (validated natively against real deku); oracle written from Annex 10 in harness/src/refs.rs. Metric altitudes (M=1) outside.",
     technique=TECH + "; differential against an independent reference decoder/encoder"),
  "C14": dict(
-    text="PARTIAL (three closed-form schemes): n_reg, ja_reg, hl_reg on ALL 2^32 arguments: no panic; ja_reg has a left inverse (independent parser recovers the address from the real string), hence is injective; the three schemes never answer for the same address; an answer implies the address lies in that country's first-matching block of patterns.json (table regenerated from /repo on every run).",
+    text="PARTIAL (four of five schemes): n_reg, ja_reg, hl_reg, numeric_reg on ALL 2^32 arguments: no panic; ja_reg has a left inverse (independent parser recovers the address from the real string), hence is injective; N-numbers and numeric registrations answer exactly on their address blocks; the four schemes never answer for the same address; an answer implies the address lies in that country's first-matching block of patterns.json (table regenerated from /repo on every run).",
     design_ref="DESIGN.md 3/C14",
-    note="Trusted: Kani/CBMC; format! stubbed for n_reg/hl_reg. Outside: numeric_reg, stride_reg (Lazy tables: no answer in 30 min), tail() as a whole, injectivity of the N / HL strings, aircraft_information's regex/serde_json lookup.",
+    note="Trusted: Kani/CBMC; once_cell model (numeric_reg's Lazy table); format! stubbed for n_reg/hl_reg/numeric_reg. Outside: stride_reg (Lazy table of 39 mappings: one concrete call still in symbolic execution after 18 min), hence tail() as a whole, injectivity of the N / HL / numeric strings and across stride ranges, aircraft_information's regex/serde_json lookup.",
     technique=TECH),
  "C15": dict(
-    text="Flarm::from_record with the REAL cipher on every 26-byte packet, every timestamp and every f64 reference bit pattern (NaN / inf included): a record or an error, no panic; finite numbers; track in [0, 360). Other packet lengths with arbitrary content. Field harnesses: every 160-bit plaintext block decodes to the packer's address / kind / type / flags / GPS / altitude slices; latitude and longitude reconstruction within one quantisation step for every reference on the globe and every true position in the decodable window. Thorough: real decryption equals textbook XXTEA word by word (kissat).",
+    text="Flarm::from_record with the REAL cipher on every 26-byte packet, every timestamp and every f64 reference bit pattern (NaN / inf included): a record or an error, no panic; finite numbers; track in [0, 360). Other lengths one harness each. Discrete fields (address, kind, type, flags, GPS status, altitude, recovered plaintext) equal the independent packer's bit slices for every 160-bit block. Position kernels (the private decode_latitude / decode_longitude, called directly): at three concrete references per coordinate EVERY true position in the decodable window decodes to the centre of its 128e-7 degree bucket. Thorough: cipher equivalence with textbook XXTEA per word (kissat), references b and c, more lengths.",
     design_ref="DESIGN.md 3/C15, 7.2",
-    note="Trusted: Kani/CBMC; deku model; atan2 contract stub; in the field harnesses the private btea is stubbed to the identity under Kani (natively the plaintext is encrypted by an independent XXTEA encryptor and decrypted by the real code).",
+    note="Trusted: Kani/CBMC; deku model; atan2 contract stub; in the field harnesses the private btea is stubbed to the identity under Kani (natively the plaintext is encrypted by an independent XXTEA encryptor and decrypted by the real code); private kernels reached through the stub-as-accessor trick. Position reconstruction with a symbolic reference is outside (SAT cannot push 2^43 cases through the decoder's float multiplication).",
     technique=TECH + "; differential against an independent packer / XXTEA"),
  "C17": dict(
     text="Inductive step decided by the solver: from ANY UI state satisfying the selection invariant (table sizes 0..=3, all flag values) one arbitrary event (every KeyCode variant, any char, Tick of any width, Error) through the real update()/next()/previous()/home() sliced verbatim from main.rs: no panic, invariant preserved, quit/search/sort/width flags change only as documented. Plus the initial state and all 4-event histories from it.",
@@ -66,7 +66,7 @@ META = {
     note="Trusted: Kani/CBMC/CaDiCaL. Oracle side uses fresh quotient variables with the division lemma. Unix times >= 2^34 s outside the bound.",
     technique=TECH),
 }
-REGISTERED = ["C02", "C03", "C11", "C13", "C14", "C17", "C18"]
+REGISTERED = ["C01", "C02", "C03", "C04", "C05", "C07", "C08", "C11", "C13", "C14", "C15", "C17", "C18"]
 NOTES = "See DESIGN.md. Every check is `bin/check <ID> --tier quick|thorough`; exit 2 means undecided (cap hit, vacuity witness missed, or a counterexample that does not reproduce natively) and is never reported as success."
 NOT_APPLICABLE = [
  dict(property_id="C06", reason="smallest useful instance (two reports through the real decode_position with its BTreeMap state) exhausts 24-42 GB in CBMC's propositional reduction in three reductions; state is private and the logic inline, no smaller real unit exists (DESIGN 3/C06)"),
